@@ -94,7 +94,7 @@ fn tx_checker(sh: Shared) -> AsyncCheck<TxCase> {
 
 pub fn run(ctx: &mut Ctx) {
     ctx.level = "fault_enumeration";
-    ctx.rule = "Real IceConn+DtlsTransport pairs (rig::Pair, no SCTP) with a datagram tap. recv-grid: the full product content type {20,21,22,23,24,invalid} x epoch {0,1,2,0xFFFF} x payload {SCTP-looking, close_notify, fatal alert, random, forged handshake message, CCS} x protection {plain, random key, receiver's own key, peer key with AAD != header} x source {peer, 2 third parties} against client and server roles. recv-established: proptest sessions of 40-160 injections (crafted as above incl. authentic peer-key records with nonce != header, multi-record datagrams; bit flips, truncations, extensions, re-keying, header epoch/sequence rewrites, reflections and replays of captured genuine records). recv-bitflip-exhaustive: every single-bit flip and every truncation length of genuine Finished / ApplicationData (<=128 byte) / close_notify records, sampled flips on full-size records. recv-midhandshake: handshake frozen at the server's or the client's final flight (keys negotiated, not Connected), crafted injections, then released. send-concurrent: histories over every API that seals a record under the session key - 1-16 tasks x 1-4 send() calls with sizes {0,1,1199,1200,1201,2400,<=6000} from either/both sides, close() per side either after the senders or released together with them (racing on 16 worker threads), then 0-3 further send() calls by the side that closed (after its close_notify is on the wire, or racing with it). send-close-midhandshake: close() while the handshake is frozen with keys negotiated (alert numbered by the handshake context). Every injection is followed by an authentic marker record (barrier), so each injection is judged alone. Non-trivial: receive case = at least one injected datagram differs from every genuine datagram; send case = >=2 concurrent senders or close after data. Distinct by case digest (sessions); injections are counted separately in `injections`.".into();
+    ctx.rule = "Real IceConn+DtlsTransport pairs (rig::Pair, no SCTP) with a datagram tap. recv-grid: the full product content type {20,21,22,23,24,invalid} x epoch {0,1,2,0xFFFF} x payload {SCTP-looking, close_notify, fatal alert, random, forged handshake message, CCS} x protection {plain, random key, receiver's own key, peer key with AAD != header} x source {peer, 2 third parties} against client and server roles. recv-established: proptest sessions of 40-160 injections (crafted as above incl. authentic peer-key records with nonce != header, multi-record datagrams; bit flips, truncations, extensions, re-keying, header epoch/sequence rewrites, reflections and replays of captured genuine records). recv-bitflip-exhaustive: every single-bit flip and every truncation length of genuine Finished / ApplicationData (<=128 byte) / close_notify records, sampled flips on full-size records. recv-midhandshake: handshake frozen at the server's or the client's final flight (keys negotiated, peer's ChangeCipherSpec not yet seen, not Connected); a fixed set of 36 unprotected records whose header claims epoch 1 / 2 / 0xFFFF (content types 23, 21, 22, 20, several sequence numbers, peer and foreign source) followed by 10-40 crafted injections; then released. The same fixed set opens every recv-established session. send-concurrent: histories over every API that seals a record under the session key - 1-16 tasks x 1-4 send() calls with sizes {0,1,1199,1200,1201,2400,<=6000} from either/both sides, close() per side either after the senders or released together with them (racing on 16 worker threads), then 0-3 further send() calls by the side that closed (after its close_notify is on the wire, or racing with it). send-close-midhandshake: close() while the handshake is frozen with keys negotiated (alert numbered by the handshake context). Every injection is followed by an authentic marker record (barrier), so each injection is judged alone. Non-trivial: receive case = at least one injected datagram differs from every genuine datagram; send case = >=2 concurrent senders or close after data. Distinct by case digest (sessions); injections are counted separately in `injections`.".into();
     ctx.assumptions = vec![
         "negotiated suite is TLS_ECDHE_ECDSA_WITH_AES_128_GCM_SHA256 (the only one rustrtc offers); 'authenticates' is decided by the harness's own AES-GCM reader with nonce = write IV || explicit nonce and AAD = epoch||seq||type||FEFD||len".into(),
         "verbatim replays of genuine records and records sealed by the harness with the negotiated peer key (AAD consistent with the header, any explicit nonce, any epoch >= 1) count as authenticated: the statement demands authentication, not anti-replay or epoch tracking".into(),
